@@ -7,7 +7,8 @@ Require Import Webob.Lib.Val Webob.Lib.PyStr Webob.Lib.C12_PyInt Webob.Lib.C12_C
                Webob.Model.C12_Headers Webob.Model.C12_ByteRange Webob.Model.C12_Dates Webob.Model.C12_CacheControl
                Webob.Model.C12_AuthCT Webob.Model.C12_Attrs
                Webob.Proofs.C12_pyint Webob.Proofs.C12_headers Webob.Proofs.C12_byterange
-               Webob.Proofs.C12_civil Webob.Proofs.C12_dates Webob.Proofs.C12_cachecontrol Webob.Proofs.C12_attrs.
+               Webob.Proofs.C12_civil Webob.Proofs.C12_dates Webob.Proofs.C12_cachecontrol Webob.Proofs.C12_authct
+               Webob.Proofs.C12_attrs.
 Import ListNotations.
 
 (* ===================================================================== group 1: machinery, integers, lists *)
@@ -327,8 +328,8 @@ Print Assumptions C12_cc_none_del_removes.
    no theorem beyond totality-by-construction is claimed for them) *)
 
 (* credentials given as (scheme, text) round-trip for schemes whose parameters are not parsed, and for
-   Basic with a quote-free token.  PARTIAL: the (scheme, dict) form is covered by correspondence and oracle only *)
-Theorem C12_roundtrip_auth_partial : forall header scheme params hl,
+   Basic with a quote-free token (the (scheme, dict) form: C12_roundtrip_auth below) *)
+Theorem C12_roundtrip_auth_text : forall header scheme params hl,
   ~ In 32%N scheme -> has_crlf (scheme ++ [32%N] ++ params) = false ->
   (existsb (str_eqb scheme) known_schemes = false \/
    (scheme = s_Basic /\ existsb is_dq params = false)) ->
@@ -336,4 +337,120 @@ Theorem C12_roundtrip_auth_partial : forall header scheme params hl,
   e = None /\ hg_get (lower header) hl' = Some (scheme ++ [32%N] ++ params) /\
   resp_get conv_auth header hl' = Ok (VList [VStr auth_tag; VStr scheme; VStr params]).
 Proof. exact roundtrip_auth_text. Qed.
-Print Assumptions C12_roundtrip_auth_partial.
+Print Assumptions C12_roundtrip_auth_text.
+
+From Coq Require Import String Lia.     (* string literals for the Examples below; nothing below uses [length] *)
+
+(* credentials given as (scheme, dict).  Domain: [dict_scheme] = one of the schemes whose parameters webob parses
+   (Digest, WSSE, HMACDigest, GoogleLogin, Cookie, OpenID; not Basic); [ok_aparam] = parameter name of one or more
+   lower-case ASCII letters, value free of double quote, CR and LF (anything else, incl. commas, spaces, "=",
+   backslashes, the empty text); names distinct.  The header is  scheme SP name="value", name="value" ...  and reads
+   back as the same scheme and the same dict, in the same order *)
+Theorem C12_roundtrip_auth : forall header scheme l hl,
+  dict_scheme scheme -> Forall ok_aparam l -> NoDup (map fst l) ->
+  let '(hl', e) := resp_set conv_auth header (PAuth scheme l) hl in
+  e = None /\ hg_get (lower header) hl' = Some (scheme ++ [32%N] ++ ser_params l) /\
+  resp_get conv_auth header hl' = Ok (VList [VStr auth_tag; VStr scheme; dict_val l]).
+Proof. exact roundtrip_auth_dict. Qed.
+Print Assumptions C12_roundtrip_auth.
+
+Theorem C12_roundtrip_auth_request : forall dflt key scheme l env,
+  dict_scheme scheme -> Forall ok_aparam l -> NoDup (map fst l) ->
+  let '(env', e) := req_set conv_auth key (PAuth scheme l) env in
+  e = None /\ env_get key env' = Some (scheme ++ [32%N] ++ ser_params l) /\
+  req_get conv_auth dflt key env' = Ok (VList [VStr auth_tag; VStr scheme; dict_val l]).
+Proof. exact roundtrip_auth_dict_request. Qed.
+Print Assumptions C12_roundtrip_auth_request.
+
+Example C12_roundtrip_auth_hyp :
+  dict_scheme (s_ "Digest") /\ Forall ok_aparam [(s_ "realm", s_ "a, b=c"); (s_ "nonce", s_ "")].
+Proof. split; [split; reflexivity|]. repeat constructor; cbn; try discriminate; intros c; lia. Qed.
+
+(* ===================================================================== group 4b: Cache-Control, request side and text *)
+(* request.py as repaired (setter stores text only; _update_cache_control drops the cached tuple).  Objects live in a
+   heap, because a caller may keep and later change an object the request no longer caches.  After ANY history
+   (reads; directive assignments / deletions through request.cache_control or through a kept object; direct changes
+   of .properties; changes of the environ key; assignments of text / dict / None; del), what request.cache_control
+   shows and HTTP_CACHE_CONTROL denote each other, before and after the read *)
+Theorem C12_cc_live_request : forall init ops,
+  let sth := fold_left (fun s o => fst (qcc_step true s o)) ops (mkQ init [] None, None) in
+  let '(st', i) := req_cc_get true (fst sth) in
+  let p := nth i (q_heap st') [] in
+  agree p (qenv_text (fst sth)) /\ agree p (qenv_text st').
+Proof. exact req_cc_live. Qed.
+Print Assumptions C12_cc_live_request.
+
+Theorem C12_cc_mutation_written_request : forall i f st,
+  qenv_text (req_cc_mutate true i f st) = serialize_cc (f (nth i (q_heap st) [])).
+Proof. exact req_cc_mutation_written. Qed.
+Print Assumptions C12_cc_mutation_written_request.
+
+(* parse (serialise p) = p, in the order the serialiser emits (sorted by name).  Domain [okd]: directive name of the
+   token_re shape (ASCII letter, then letters, "_", "-"), distinct; value absent, an integer str() can print, or a
+   non-empty text without double quote that int() does not accept (such a text would come back as an int) *)
+Theorem C12_cc_parse_serialize : forall p,
+  let L := sort_props p in
+  NoDup (map fst L) -> Forall okd L -> parse_cc (serialize_cc p) = L.
+Proof. exact parse_serialize_cc. Qed.
+Print Assumptions C12_cc_parse_serialize.
+
+Example C12_cc_parse_serialize_hyp :
+  Forall okd [(s_ "max-age", CInt 0); (s_ "no-cache", CNone); (s_ "private", CStr (s_ "set-cookie, x y"))]
+  /\ sort_props [(s_ "private", CNone); (s_ "max-age", CInt 5)] = [(s_ "max-age", CInt 5); (s_ "private", CNone)].
+Proof.
+  split; [|reflexivity]. repeat constructor; cbn; try discriminate;
+    try (eexists; eexists; split; [reflexivity|split; [reflexivity|repeat constructor]]);
+    try (apply Nat.leb_le; reflexivity).
+Qed.
+
+(* ===================================================================== group 5b: Content-Type attributes *)
+(* [no_semi s]: s contains no ";" *)
+
+(* Response.charset = cs on a Content-Type whose remaining parameters hold no further charset (stated as: what is left
+   after removing the old charset has no semicolon, i.e. "type/subtype" or "type/subtype; charset=old"): the header
+   becomes "<rest>; charset=cs", charset reads back cs, content_type is unchanged *)
+Theorem C12_roundtrip_charset : forall hl h cs,
+  ct_get hl = Some h -> no_semi (strip_charset h) -> no_semi cs ->
+  let '(hl', e) := rcharset_set (PStr cs) hl in
+  e = None /\ ct_get hl' = Some (strip_charset h ++ s_semi_charset ++ cs) /\
+  rcharset_get hl' = VStr cs /\ rct_get hl' = VStr (strip_charset h).
+Proof. exact rcharset_roundtrip. Qed.
+Print Assumptions C12_roundtrip_charset.
+
+Example C12_roundtrip_charset_hyp :
+  strip_charset (s_ "text/html; charset=latin-1") = s_ "text/html" /\ no_semi (s_ "text/html") /\ no_semi (s_ "utf-8").
+Proof. split; [reflexivity|]. split; apply Forall_forall; intros c Hc; cbn in Hc; repeat (destruct Hc as [<-|Hc]; [reflexivity|]); contradiction. Qed.
+
+(* Response.content_type = a media type (non-empty, no semicolon) reads back as itself, whatever charset default the
+   setter appends; None / del drop the header line *)
+Theorem C12_roundtrip_content_type : forall ct hl, ct <> [] -> no_semi ct ->
+  let '(hl', e) := rct_set (PStr ct) hl in e = None /\ rct_get hl' = VStr ct.
+Proof. exact rct_roundtrip. Qed.
+Print Assumptions C12_roundtrip_content_type.
+
+(* Response.content_type_params = d (non-empty).  L = the parameters in the order the setter emits them (sorted by
+   name).  Domain [okp]: alphanumeric ASCII name, value free of double quote and LF; names distinct.  Reading gives
+   exactly L and the media type is kept *)
+Theorem C12_roundtrip_content_type_params : forall d hl,
+  let L := fold_right insert_kv [] d in
+  d <> [] -> NoDup (map fst L) -> Forall okp L ->
+  let '(hl', e) := rparams_set (PAuth [] d) hl in
+  e = None /\ rparams_get hl' = dict_val L /\
+  rct_get hl' = match before_semi (match fst (ct_pop hl) with Some x => x | None => [] end) with
+                | [] => VStr [] | b => VStr b end.
+Proof. exact rparams_roundtrip. Qed.
+Print Assumptions C12_roundtrip_content_type_params.
+
+(* Request.content_type: the value assigned reads back up to its first semicolon; parameters already present are
+   kept when the value brings none; None removes the key *)
+Theorem C12_roundtrip_request_content_type : forall value env,
+  qct_get (qct_set (Some value) env) = VStr (before_semi value).
+Proof. exact qct_roundtrip. Qed.
+Print Assumptions C12_roundtrip_request_content_type.
+
+Theorem C12_request_content_type_keeps_params : forall value env p,
+  existsb (fun c => (c =? 59)%N) value = false ->
+  after_semi (match env with Some t => t | None => [] end) = Some p ->
+  qct_set (Some value) env = Some (value ++ [59%N] ++ p).
+Proof. exact qct_keeps_params. Qed.
+Print Assumptions C12_request_content_type_keeps_params.
